@@ -206,11 +206,12 @@ def t_calc_ops(facts, res, tier):
     pre = closure_arg(fn, "map_prefix")
     if inf is None or pre is None:
         raise AnchorMissing("parse_calc: map_infix/map_prefix closures not found")
-    from astlib import plain_arith, local_closures
+    from astlib import plain_arith, local_closures, arith_helpers
     m, arms = rule_arms(inf)
     helpers = local_closures(inf["body"])
+    ah = arith_helpers(facts)
     checked_division = any(x.get("k") == "mcall" and x["method"] in ("checked_div", "checked_rem") for x in walk(arms.get("div", {})))
-    arms = {k: plain_arith(v, helpers) for k, v in arms.items()}
+    arms = {k: plain_arith(v, helpers, ah) for k, v in arms.items()}
     for op, accepted in sorted(CALC_INFIX.items()):
         key = "T-CALC-OPS:infix:%s" % op
         if op not in arms:
@@ -250,7 +251,10 @@ FOLD_OPS = {"Add": "+", "Sub": "-", "And": "&", "Or": "|", "Xor": "^", "Mul": "*
 @rule("T-FOLD", floor=15,
       text="every constant-folding arm in the generator (generate_arithm and generate_shift on two immediates, generate_neg/not/bnot on a literal, the immediate_special table of generate_condition) applies the operator of the Operation it is the arm for")
 def t_fold(facts, res, tier):
-    from astlib import plain_arith, local_closures
+    from astlib import plain_arith as _pa, local_closures, arith_helpers
+    _ah = arith_helpers(facts)
+    def plain_arith(node, closures=None):
+        return _pa(node, closures, _ah)
     n = 0
     for fname in ("generate_arithm", "generate_shift", "generate_condition"):
         fn = facts.fn(fname, "GeneratorState")
